@@ -143,6 +143,8 @@ class Session:
         self.log = []
         self.path = None
         self.non_utc = 0  # returned points whose time is not tz-UTC (C08 interest)
+        self.sticky_handles = False
+        self.handles = {}
         if cfg["storage"] == "csv":
             self.path = path or scratch.new_db_path()
         self.db = self._open()
@@ -186,6 +188,8 @@ class Session:
         t.model = self.model.copy()
         t.log = list(self.log)
         t.non_utc = 0
+        t.sticky_handles = False
+        t.handles = {}
         t.path = None
         if self.cfg["storage"] == "mem":
             t.db = copy.deepcopy(self.db)
@@ -232,6 +236,13 @@ class Session:
     # -- execution -----------------------------------------------------------
     def target(self, op):
         if op.get("via") == "h":
+            if self.sticky_handles:
+                # Keep using a handle obtained earlier, even after the database
+                # dropped it from its own cache (drop_measurement / remove_all).
+                h = self.handles.get(op["m"])
+                if h is None or h._db is not self.db:
+                    h = self.handles[op["m"]] = self.db.measurement(op["m"])
+                return h
             return self.db.measurement(op["m"])
         return self.db
 
@@ -285,7 +296,7 @@ class Session:
             t0 = to_us(datetime.now(timezone.utc))
             ps = [real_point(s) for s in op["ps"]]
             kw = {}
-            if op.get("compact"):
+            if op.get("compact") and not via_h:  # handles offer no compact option
                 kw["compact_key_prefixes"] = True
             if not via_h and mfilter:
                 kw["measurement"] = mfilter
